@@ -328,6 +328,79 @@ Section G.
     destruct rv0 as [v0|e|]; [destruct (post_applies p skip)|..]; injection H as <- _; eauto.
   Qed.
 
+  (* ---------- a pipeline whose source is another pipeline ---------- *)
+  Variable nested : Z -> option Z.
+  Local Notation ncall' := (ncall arg atom src modr modl post nested).
+  Local Notation chain_mods' := (chain_mods nested).
+  Local Notation chain_posts' := (chain_posts nested).
+
+  (* an ordinary source (or none): the nested evaluator IS Pipeline._call *)
+  Theorem ncall_flat f r n a skip :
+    match p_source (get_pipe r n) with Some s => nested s = None | None => True end ->
+    ncall' (S f) r n a skip = call' (get_pipe r n) a skip.
+  Proof.
+    intros H. simpl. unfold call. destruct (p_source (get_pipe r n)) as [s|]; [|reflexivity]. rewrite H. simpl.
+    destruct (apply' (p_comb (get_pipe r n)) (p_muts (get_pipe r n)) a [ESrc s a] (src s a)) as [tr [v|e|]]; reflexivity.
+  Qed.
+
+  (* a pipeline as source: its whole evaluation (source, modifiers, its OWN post-processor - never skipped) stands where
+     the source call would stand, once; then the outer modifiers and the outer post-processor *)
+  Theorem ncall_nested_replace f r n a skip s m tri vi :
+    p_source (get_pipe r n) = Some s -> nested s = Some m -> p_comb (get_pipe r n) = CReplace ->
+    ncall' f r m a false = (tri, Ok vi) ->
+    let p := get_pipe r n in
+    let v := fold_left (fun x q => modr q a x) (p_muts p) vi in
+    ncall' (S f) r n a skip = (tri ++ rtrace a (p_muts p) vi ++ post_events p skip v, post_value p skip v).
+  Proof.
+    intros Hs Hn Hc Hi. cbv zeta. simpl. rewrite Hs, Hn, Hi, Hc. simpl. rewrite apply_replace.
+    unfold post_events, post_value. destruct (post_applies (get_pipe r n) skip).
+    - now rewrite <- app_assoc.
+    - now rewrite app_nil_r.
+  Qed.
+
+  Theorem ncall_nested_list f r n a skip s m tri li :
+    p_source (get_pipe r n) = Some s -> nested s = Some m -> p_comb (get_pipe r n) = CList ->
+    ncall' f r m a false = (tri, Ok (Many li)) ->
+    let p := get_pipe r n in
+    let v := Many (li ++ map (fun q => modl q a) (p_muts p)) in
+    ncall' (S f) r n a skip =
+      (tri ++ map (fun q => EMod q a None) (p_muts p) ++ post_events p skip v, post_value p skip v).
+  Proof.
+    intros Hs Hn Hc Hi. cbv zeta. simpl. rewrite Hs, Hn, Hi, Hc. simpl. rewrite apply_list.
+    unfold post_events, post_value. destruct (post_applies (get_pipe r n) skip).
+    - now rewrite <- app_assoc.
+    - now rewrite app_nil_r.
+  Qed.
+
+  (* the inner pipeline fails (no source somewhere down the chain, a callable raises): the outer call fails the same
+     way and evaluates nothing more *)
+  Theorem ncall_nested_failure f r n a skip s m tri e :
+    p_source (get_pipe r n) = Some s -> nested s = Some m -> ncall' f r m a false = (tri, Rejected e) ->
+    ncall' (S f) r n a skip = (tri, Rejected e).
+  Proof. intros Hs Hn Hi. simpl. now rewrite Hs, Hn, Hi. Qed.
+
+  (* exactly once, in order, along the whole chain: one source evaluation (the innermost pipeline's), the modifiers of
+     the chain innermost first, every inner post-processor and the outer one unless skipped *)
+  Theorem ncall_exactly_once : forall f r n a skip tr v, ncall' f r n a skip = (tr, Ok v) ->
+    length (src_ids tr) = 1%nat /\ mod_ids tr = chain_mods' f r n /\ post_ids tr = chain_posts' f r n skip.
+  Proof.
+    induction f as [|f IH]; intros r n a skip tr v H; simpl in H; [discriminate|]. simpl.
+    destruct (p_source (get_pipe r n)) as [s|]; [|discriminate].
+    assert (Hin : forall tr0 v0, (match nested s with Some m => ncall' f r m a false | None => ([ESrc s a], Ok (src s a)) end) = (tr0, Ok v0) ->
+              length (src_ids tr0) = 1%nat /\
+              mod_ids tr0 = match nested s with Some m => chain_mods' f r m | None => [] end /\
+              post_ids tr0 = match nested s with Some m => chain_posts' f r m false | None => [] end).
+    { intros tr0 v0 E. destruct (nested s) as [m|]; [now apply (IH r m a false tr0 v0)|]. injection E as <- _. auto. }
+    destruct (match nested s with Some m => ncall' f r m a false | None => ([ESrc s a], Ok (src s a)) end) as [tr0 [v0|e|]] eqn:E;
+      simpl in H; try discriminate.
+    destruct (Hin tr0 v0 eq_refl) as [H1 [H2 H3]].
+    destruct (apply' (p_comb (get_pipe r n)) (p_muts (get_pipe r n)) a tr0 v0) as [tr1 [v1|e|]] eqn:Ea; try discriminate.
+    apply apply_ids in Ea. destruct Ea as [A1 [A2 A3]].
+    destruct (post_applies (get_pipe r n) skip); injection H as <- _.
+    - rewrite src_ids_app, mod_ids_app, post_ids_app, A1, A2, A3, H2, H3. simpl. rewrite !app_nil_r. auto.
+    - rewrite A1, A2, A3, H2, H3, app_nil_r. auto.
+  Qed.
+
   (* ---------- history, then call ---------- *)
     Theorem history_call_replace ops n s k a skip :
       first_producer n ops = Some (s, CReplace, k) ->
